@@ -37,9 +37,9 @@ CAPI = {
     'PyDict_GetItemRef': ({PY, RC_FAIL}, 'hashes/compares the key; -1 on error'),
     'PyDict_SetItem': ({PY, RC_FAIL, MUTATES}, 'hashes/compares the key; -1 on error'),
     'PyDict_Contains': ({PY, RC_FAIL}, 'hashes/compares the key; -1 on error'),
-    'PyDict_Keys': ({NEWREF, NULLABLE}, 'new list of keys in *storage* order; ignores OrderedDict order'),
-    'PyDict_Values': ({NEWREF, NULLABLE}, 'storage order'),
-    'PyDict_Items': ({NEWREF, NULLABLE}, 'storage order'),
+    'PyDict_Keys': ({NEWREF}, 'new list of keys in *storage* order (NULL only when allocation fails); ignores OrderedDict order'),
+    'PyDict_Values': ({NEWREF}, 'storage order'),
+    'PyDict_Items': ({NEWREF}, 'storage order'),
     'PyDict_Next': (set(), 'storage order iteration'),
     'PyDict_Size': (set(), 'size'),
     'PyDict_GET_SIZE': (set(), 'size'),
